@@ -9,6 +9,8 @@ from sa.facts import result_sites
 from sa.guards import GuardView, atom_of, names_in, or_parts
 from sa.index import own_nodes
 from sa.report import Ctx
+
+from .common import generic_sweeps
 from sa.units import I, N, Q, U, UnitEnv
 
 from .sat_common import _enclosing_block
@@ -42,6 +44,7 @@ def run(ctx: Ctx):
 
 
 # -- O1 ------------------------------------------------------------------------------------------
+    generic_sweeps(ctx)
 
 
 def check_units(ctx: Ctx):
